@@ -20,7 +20,7 @@ vars == <<l, st, viol>>
 Ev == Trace[l]
 IsEvent(k) == l <= Len(Trace) /\ Ev.ev = k /\ l' = l + 1
 
-Known == {"Reset", "Emit", "EmitLost", "Proc", "Write", "Confirm", "Reject", "DlqWrite", "DlqConfirm", "DlqReject",
+Known == {"Reset", "Emit", "EmitLost", "ReconfCall", "ReconfRet", "Proc", "Write", "Confirm", "Reject", "DlqWrite", "DlqConfirm", "DlqReject",
           "SrcAck", "Durable", "Open", "Teardown", "Restore", "Call", "Ret", "End", "Hang", "Panic",
           "Fault", "HarnessError", "ChildTimeout"}
 
@@ -28,7 +28,15 @@ Empty == [scen |-> "", engine |-> "", srcs |-> {}, dsts |-> {}, feats |-> {},
           emitted |-> <<>>, pend |-> <<>>, wr |-> <<>>, acked |-> <<>>, stored |-> <<>>,
           dlqW |-> <<>>, dlqP |-> {}, dlqDone |-> {}, dlqFail |-> {}, rej |-> {},
           opens |-> <<>>, tears |-> <<>>, crashed |-> FALSE, bad |-> FALSE, ended |-> FALSE,
-          stopRet |-> FALSE, status |-> 0, win |-> 0, thr |-> 0]
+          stopRet |-> FALSE, status |-> 0, win |-> 0, thr |-> 0,
+          \* C13: live reconfiguration. gens[p][o]: generations of processor p that handled origin o;
+          \* hi[p]: highest generation p has used so far (in processing order); asked / applied / failed:
+          \* generations requested, reported as applied, reported as failed; floor[o]: the highest
+          \* generation reported applied before origin o was emitted
+          gens |-> <<>>, hi |-> <<>>, asked |-> {}, applied |-> {}, failedGen |-> {}, floor |-> <<>>,
+          \* rank[<<p, g>>]: position of generation g in the order in which p's configurations were opened;
+          \* curRank[p]: rank of the configuration opened last (the one in force once its open succeeded)
+          rank |-> <<>>, curRank |-> <<>>]
 
 Init == l = 1 /\ st = Empty /\ viol = {}
 
@@ -41,6 +49,9 @@ Piece == <<Ev.src, Ev.idx, Ev.path>>
 Org == <<Ev.src, Ev.idx>>
 
 Rng(f) == {f[x] : x \in DOMAIN f}
+GetF(f, k, dflt) == IF k \in DOMAIN f THEN f[k] ELSE dflt
+PutF(f, k, v) == IF k \in DOMAIN f THEN [f EXCEPT ![k] = v] ELSE f @@ (k :> v)
+MaxOf(S) == IF S = {} THEN 0 ELSE CHOOSE x \in S : \A y \in S : y <= x
 
 (* C07: the nack window.  Outcomes of source s before index i, in read order (TRUE = dead-lettered);
    both engines hand outcomes to the window in read order (v1: one window per pipeline, so this is
@@ -72,7 +83,8 @@ Emit ==
   /\ IsEvent("Emit")
   /\ IF IsSrc(Ev.src)
        THEN st' = [st EXCEPT !.emitted[Ev.src] = Append(@, Ev.idx),
-                             !.pend = [d \in st.dsts |-> st.pend[d] \cup {<<Ev.src, Ev.idx, <<>>>>}]]
+                             !.pend = [d \in st.dsts |-> st.pend[d] \cup {<<Ev.src, Ev.idx, <<>>>>}],
+                             !.floor = PutF(@, <<Ev.src, Ev.idx>>, st.curRank)]
        ELSE st' = [st EXCEPT !.bad = TRUE]
   /\ UNCHANGED viol
 
@@ -89,10 +101,47 @@ EmitLost ==
 Proc ==
   /\ IsEvent("Proc")
   /\ IF Ev.tagok /\ IsSrc(Ev.src)
-       THEN st' = [st EXCEPT !.pend = ApplyProc(st, Ev.scope, Piece, Ev.kind, Ev.outs),
-                             !.rej = IF Ev.kind = "error" THEN @ \cup {Piece} ELSE @]
-       ELSE UNCHANGED st
+       THEN LET key == <<Ev.proc, Org>>
+                seen == GetF(st.gens, key, {})
+                g == Ev.geni IN
+            /\ st' = [st EXCEPT !.pend = ApplyProc(st, Ev.scope, Piece, Ev.kind, Ev.outs),
+                                !.rej = IF Ev.kind = "error" THEN @ \cup {Piece} ELSE @,
+                                !.gens = PutF(@, key, seen \cup {g}),
+                                !.hi = LET rk == GetF(st.rank, <<Ev.proc, g>>, 0) IN
+                                       PutF(@, Ev.proc, IF rk > GetF(st.hi, Ev.proc, 0) THEN rk ELSE GetF(st.hi, Ev.proc, 0))]
+            /\ viol' = viol
+                 \* C13: every record is processed by exactly one configuration ...
+                 \cup Add(seen \subseteq {g}, "OneConfigPerRecord", <<Ev.proc, Ev.tag, seen, g>>)
+                 \* ... the old one before the switch, the new one after it (never back): configurations are
+                 \* ordered by the order in which they were opened
+                 \cup (IF "reconf" \in st.feats
+                        THEN LET rk == GetF(st.rank, <<Ev.proc, g>>, 0) IN
+                             Add(rk >= GetF(st.hi, Ev.proc, 0), "SwitchAtBoundary", <<Ev.proc, Ev.tag, g>>)
+                             \* only configurations somebody asked for, never one whose open failed
+                             \cup Add(g = 1 \/ g \in st.asked, "OnlyRequestedConfig", <<Ev.proc, g>>)
+                             \cup Add(rk > 0, "FailedOpenKeepsOld", <<Ev.proc, g, "never opened">>)
+                             \* a switch that happened before the record was read is in force for it
+                             \cup Add(Len(Ev.path) > 0 \/ rk >= GetF(GetF(st.floor, Org, <<>>), Ev.proc, 0), "AppliedIsInForce",
+                                      <<Ev.proc, Ev.tag, g>>)
+                        ELSE {})
+       ELSE UNCHANGED <<st, viol>>
+
+ReconfCall ==
+  /\ IsEvent("ReconfCall")
+  /\ st' = [st EXCEPT !.asked = @ \cup {Ev.geni}]
   /\ UNCHANGED viol
+
+ReconfRet ==
+  /\ IsEvent("ReconfRet")
+  /\ IF Ev.err.nil
+       THEN st' = [st EXCEPT !.applied = @ \cup {Ev.geni}] /\ UNCHANGED viol
+       ELSE /\ st' = [st EXCEPT !.failedGen = IF "sentinel" \in DOMAIN Ev.err /\ Ev.err.sentinel \in {"context.Canceled", "context.DeadlineExceeded"}
+                                                THEN @ ELSE @ \cup {Ev.geni}]
+            \* the caller got an error (not a mere give-up): that configuration never handled a record
+            /\ viol' = viol
+                 \cup (IF "sentinel" \in DOMAIN Ev.err /\ Ev.err.sentinel \in {"context.Canceled", "context.DeadlineExceeded"}
+                        THEN {}
+                        ELSE Add(\A k \in DOMAIN st.gens : Ev.geni \notin st.gens[k], "FailedOpenKeepsOld", <<Ev.proc, Ev.geni>>))
 
 Write ==
   /\ IsEvent("Write")
@@ -191,6 +240,12 @@ Open ==
                         !.dlqDone = {o \in @ : o[1] # s},
                         !.dlqFail = {o \in @ : o[1] # s},
                         !.rej = {x \in @ : x[1] # s}]
+     ELSE IF Ev.kind = "processor"
+       THEN LET g == Ev.geni  r == GetF(st.curRank, Ev.conn, 0) + 1 IN
+            st' = [st EXCEPT !.opens = Bump(@, Ev.key),
+                             !.rank = IF <<Ev.conn, g>> \in DOMAIN @ THEN @ ELSE @ @@ (<<Ev.conn, g>> :> r),
+                             !.curRank = IF <<Ev.conn, g>> \in DOMAIN st.rank THEN @ ELSE PutF(@, Ev.conn, r)]
+            /\ UNCHANGED viol
      ELSE st' = [st EXCEPT !.opens = Bump(@, Ev.key)] /\ UNCHANGED viol
 
 Teardown ==
@@ -291,7 +346,7 @@ Fault == IsEvent("Fault") /\ UNCHANGED <<st, viol>>
 HarnessError == (IsEvent("HarnessError") \/ IsEvent("ChildTimeout")) /\ st' = [st EXCEPT !.bad = TRUE] /\ UNCHANGED viol
 Other == l <= Len(Trace) /\ Ev.ev \notin Known /\ l' = l + 1 /\ UNCHANGED <<st, viol>>
 
-Next == \/ Reset \/ Emit \/ EmitLost \/ Proc \/ Write \/ Confirm \/ Reject \/ DlqWrite \/ DlqConfirm \/ DlqReject
+Next == \/ Reset \/ Emit \/ EmitLost \/ ReconfCall \/ ReconfRet \/ Proc \/ Write \/ Confirm \/ Reject \/ DlqWrite \/ DlqConfirm \/ DlqReject
         \/ SrcAck \/ Durable \/ Open \/ Teardown \/ Restore \/ Call \/ Ret \/ End \/ Hang \/ Panic
         \/ Fault \/ HarnessError \/ Other
 
